@@ -581,6 +581,8 @@ class RPCInterface:
         """
         # WARN: do NOT check OPERATION (it is used internally in DISTRIBUTION state)
         _, process = self._get_application_process(namespec)
+        if not process:
+            self._raise(Faults.BAD_NAME, 'start_args', f'namespec={namespec} is not a process')
         # update command line in process config with extra_args
         try:
             self.supvisors.supervisor_data.update_extra_args(process.namespec, extra_args)
